@@ -448,6 +448,7 @@ func (d *domain) analyze(n *fnNode) {
 	}
 	n.analyzing = true
 	w := &walker{d: d, n: n, info: n.pkg.info}
+	w.valueReceiverCopy()
 	w.block(n.body.List)
 	if !w.dead {
 		w.exits = append(w.exits, copyHeld(w.held))
@@ -473,6 +474,38 @@ func (d *domain) analyze(n *fnNode) {
 	n.results = w.finalResults()
 	n.analyzing = false
 	n.analyzed = true
+}
+
+// valueReceiverCopy: a method declared on T (not *T) of one of the domain's own struct types is called
+// on a copy of the whole struct: the call reads every field, the guarded ones included, with whatever
+// the caller holds (nothing, for a public method). One read site per mutex-guarded field, at the receiver.
+func (w *walker) valueReceiverCopy() {
+	n := w.n
+	if n.fn == nil || n.recvVar == nil {
+		return
+	}
+	sig, ok := n.fn.Type().(*types.Signature)
+	if !ok || sig.Recv() == nil {
+		return
+	}
+	rt := types.Unalias(sig.Recv().Type())
+	if _, isPtr := rt.(*types.Pointer); isPtr {
+		return
+	}
+	nt, ok := rt.(*types.Named)
+	if !ok {
+		return
+	}
+	st, ok := nt.Underlying().(*types.Struct)
+	if !ok {
+		return
+	}
+	for i := 0; i < st.NumFields(); i++ {
+		loc := typeKey(nt) + "." + st.Field(i).Name()
+		if w.d.classOf(loc).Class == "mutex" {
+			w.addSite(n.recvVar.Pos(), loc, "rd", false, "value receiver: the call copies the struct, this guarded field included")
+		}
+	}
 }
 
 func (w *walker) finalResults() []*aval {
